@@ -111,6 +111,27 @@ static bool enabled(int t) {
 	return false;
 }
 
+// ---- distinct-state counting: open addressing in a preallocated table, cleared by walking the used list
+enum { STAB_BITS = 21, STAB_N = 1 << STAB_BITS, SUSED_N = 1 << 20 };
+static uint64_t* stab = 0; static uint32_t* sused = 0; static uint32_t nsused = 0; static bool ssat = false;
+void states_reset() {
+	if (!stab) { stab = (uint64_t*)calloc(STAB_N, sizeof(uint64_t)); sused = (uint32_t*)malloc(SUSED_N * sizeof(uint32_t)); }
+	for (uint32_t i = 0; i < nsused; i++) stab[sused[i]] = 0;
+	nsused = 0; ssat = false;
+}
+uint64_t states_count() { return nsused; }
+bool states_saturated() { return ssat; }
+static inline void state_seen(uint64_t h) {
+	if (!stab || ssat) return;
+	if (h == 0) h = 1;
+	uint32_t i = (uint32_t)(h >> 17) & (STAB_N - 1);
+	for (int probe = 0; probe < 64; probe++, i = (i + 1) & (STAB_N - 1)) {
+		if (stab[i] == h) return;
+		if (stab[i] == 0) { if (nsused >= SUSED_N) { ssat = true; return; } stab[i] = h; sused[nsused++] = i; return; }
+	}
+	ssat = true;
+}
+
 static uint64_t mix(uint64_t h, uint64_t v) { h ^= v + 0x9e3779b97f4a7c15ULL + (h << 6) + (h >> 2); return h * 0xff51afd7ed558ccdULL; }
 static uint64_t state_hash(int cur) {
 	uint64_t h = 1469598103934665603ULL;
@@ -148,6 +169,7 @@ static int decide(int cur, bool curAlive, int kind) {
 		int ntimer = 0;
 		if (early_timeouts) for (int t = 0; t < nT && n < MAXT; t++) if (T[t].state == ST_LIVE && T[t].pred && T[t].timed && !T[t].yielding && !enabled(t)) { list[n++] = t; ntimer++; }
 		if (++nsteps > (uint64_t)step_limit_) fatal("STEP_LIMIT");
+		state_seen(state_hash(cur));
 		size_t pos = res_->choices.size();
 		int c = 0;
 		if (pos < prefix_.size()) { c = prefix_[pos]; if (c >= n) fatal("DIVERGED"); }
@@ -244,6 +266,7 @@ Result run_once(const std::vector<uint8_t>& prefix, const std::function<void()>&
 ExploreStats explore(const std::function<void()>& body, const std::function<void(const Result&)>& after, int bound, uint64_t max_exec, int step_limit, bool state_cache) {
 	ExploreStats st; memset(&st, 0, sizeof st); st.complete = true; st.bound_completed = bound;
 	cache_on = state_cache; seen_states.clear(); budget_total = bound;
+	states_reset();
 	std::vector<std::vector<uint8_t> > stack;
 	stack.push_back(std::vector<uint8_t>());
 	while (!stack.empty()) {
@@ -270,6 +293,7 @@ ExploreStats explore(const std::function<void()>& body, const std::function<void
 		}
 	}
 	cache_on = false;
+	st.distinct_states = states_count(); st.states_saturated = states_saturated();
 	return st;
 }
 
